@@ -705,16 +705,35 @@ class Poly:
     def conjugate(self):
         G = ctx().gens
         r = {}
+        slow = None
         for m, c in self.t.items():
             s = 1
+            hard = False
             for g, e in m:
                 if g == 0:
                     if e % 2:
                         s = -s
                 elif not G[g].real and not (G[g].kind == "root" and G[g].base_real and e % L == 0):
-                    raise OutsideSubset("conjugate of a non-real generator")
-            r[m] = c * s
-        return Poly(r)
+                    if G[g].kind == "def" and isinstance(G[g].data, Poly):
+                        hard = True
+                    else:
+                        raise OutsideSubset("conjugate of a non-real generator")
+            if hard:
+                # a complex definition generator: conj(d) is the (hash-consed) definition of conj(body)
+                term = Poly({(): c})
+                for g, e in m:
+                    if g == 0:
+                        f = Poly({((0, 1),): Fraction(-1)})
+                    elif G[g].kind == "def" and not G[g].real:
+                        f = abstract(G[g].data.conjugate())
+                    else:
+                        f = Poly({((g, 1),): Fraction(1)})
+                    term = term * ipow(f, e)
+                slow = term if slow is None else slow + term
+            else:
+                r[m] = c * s
+        out = Poly(r)
+        return out if slow is None else out + slow
 
     conj = conjugate
 
